@@ -484,12 +484,12 @@ BOUNDARY = [0, 1, 2, 9, 10, 11, 12, 22, 23, 165, 166, 167, 168, 321, 322, 323, 3
 
 def c06_families(rng, tier):
     n5 = 50000 if tier == "quick" else 500000
-    sh, cats = shuffled_fives(rng, n5, "rank 5")
+    sh, cats = shuffled_fives(rng, n5, "hrank 5")
     return [
         fam("all_values", ["hr %d" % v for v in range(65536)] + ["hrdefault"],
             "HandRank::from on ALL 65,536 values: value, name, class, is_invalid, is_a_valid_hand_rank, determine_name, "
             "determine_class; and HandRank::default()", exhaustive=True, pinned=True),
-        fam("hands_rank", sh + structured_fives(rng, "rank 5") + made_hands(rng, 6, 3000, "rank 6") + made_hands(rng, 7, 3000, "rank 7"),
+        fam("hands_rank", sh + structured_fives(rng, "hrank 5") + made_hands(rng, 6, 3000, "hrank 6") + made_hands(rng, 7, 3000, "hrank 7"),
             "hand_rank() / hand_rank_validated() (value, name, class) of seeded and structured five-, six- and seven-card hands",
             categories=cats, pinned=True),
     ]
